@@ -46,6 +46,8 @@ TOPOLOGIES = [
     ('forest: slide root, hinge root with slide child', [dict(parent=-1, joints=S), dict(parent=-1, joints=H), dict(parent=1, joints=S)]),
 ]
 STACKS = [
+    ('forest listing a world-attached sprung tree BEFORE a free-floating one', [dict(parent=-1, joints=H), dict(parent=0, joints=S),
+                                                                               dict(parent=-1, joints=F), dict(parent=2, joints=H)]),
     ('mixed stacks: hinge-slide root with a slide-hinge child', [dict(parent=-1, joints=H + S), dict(parent=0, joints=S + H)]),
     ('stacks: free root, slide-slide-hinge child, hinge-hinge grandchild',
      [dict(parent=-1, joints=F), dict(parent=0, joints=S + S + H), dict(parent=1, joints=H + H)]),
